@@ -1195,7 +1195,7 @@ def zero_constants(comp):
                   and type(c.value) is int and c.value == 0)
 
 
-@known_predicate('C03-scalarint-zero')
+# repaired in /repo 4c83fb8: no longer a registered predicate (a recurrence is reported)
 def _scalarint_zero(case):
     """the saved model has a constant cell holding the integer 0, and the only difference between the observations
     is that the loaded model shows ruamel.yaml's ScalarInt 0 where the original shows the int 0 (decided by the
